@@ -130,7 +130,8 @@ class ReplacementFrontend(ConstrainedFrontend):
 
     def downsize(self):
         self._actual_frontend.downsize()
-        self._replacement_cache.clear()
+        # drop the memoized results, but not the replacements themselves (lookups only consult the cache)
+        self._replacement_cache = dict(self._replacements)
 
     def __getstate__(self):
         return (
